@@ -228,6 +228,19 @@ func evalConf(cf *sdl.Conf, cfg map[string]string) confExpect {
 		} else {
 			val = strconv.Itoa(x * y)
 		}
+	case "sumDef":
+		a, okA := cfg[cf.Keys[0]]
+		if !okA {
+			a = cf.Default
+		}
+		b, okB := cfg[cf.Keys[1]]
+		if !okB {
+			e.Open = true
+			return e
+		}
+		x, _ := strconv.Atoi(a)
+		y, _ := strconv.Atoi(b)
+		val = strconv.Itoa(x + y)
 	case "nested":
 		sel, okS := cfg["other.sel"]
 		a, okA := cfg["sim."+sel]
@@ -280,6 +293,13 @@ func evalConf(cf *sdl.Conf, cfg map[string]string) confExpect {
 	if cf.Validate != "" {
 		for _, c := range strings.Fields(cf.Validate) {
 			name, arg, _ := strings.Cut(c, "=")
+			if name == "omitempty" {
+				// a modifier: an empty (zero) value is exempt from the constraints after it
+				if val == zero {
+					break
+				}
+				continue
+			}
 			if cf.GoType == "int" {
 				x, _ := strconv.Atoi(val)
 				n, _ := strconv.Atoi(arg)
@@ -328,6 +348,33 @@ func (w *World) CheckConfigStages(o *Obs) []Violation {
 	if len(merges) != 0 {
 		cfg = merges[0]
 	}
+	// the configuration a component created after Run sees: initialization callbacks may have
+	// changed it (Configure.Set); with several writers of one key the result is order-dependent
+	cfgLate, lateOpen := map[string]string{}, false
+	for k, x := range cfg {
+		cfgLate[k] = x
+	}
+	hasPoints := false
+	for _, t := range p.Types {
+		hasPoints = hasPoints || len(t.Points) != 0
+	}
+	{
+		writers := map[string]int{}
+		for _, i := range p.Instances {
+			if i.SetKey != "" {
+				writers[i.SetKey]++
+				cfgLate[i.SetKey] = strconv.Itoa(i.SetVal)
+				if w.Types[i.Type].Lazy || !(w.Types[i.Type].Init || w.Types[i.Type].APS) {
+					lateOpen = true
+				}
+			}
+		}
+		for _, n := range writers {
+			if n > 1 {
+				lateOpen = true
+			}
+		}
+	}
 	mustFail, open := "", false
 	type exp struct {
 		inst  string
@@ -342,7 +389,10 @@ func (w *World) CheckConfigStages(o *Obs) []Violation {
 			e := evalConf(cf, cfg)
 			exps = append(exps, exp{i.ID, cf, e, t.Lazy})
 			if t.Lazy {
-				open = true
+				// created during Run only if something depends on it
+				if hasPoints {
+					open = true
+				}
 				continue
 			}
 			if e.Open {
@@ -352,7 +402,7 @@ func (w *World) CheckConfigStages(o *Obs) []Violation {
 			if e.Missing && !cf.Optional && mustFail == "" {
 				mustFail = fmt.Sprintf("%s.%s: required configuration value is missing", i.ID, cf.Field)
 			}
-			if e.Violate && cf.Menu != "prefixStruct" && !(e.Missing && cf.Optional && cf.Menu == "prefixStructV") && mustFail == "" {
+			if e.Violate && cf.Menu != "prefixStruct" && mustFail == "" {
 				mustFail = fmt.Sprintf("%s.%s: bound value %q violates validate=%s", i.ID, cf.Field, e.Value, cf.Validate)
 			}
 		}
@@ -378,6 +428,40 @@ func (w *World) CheckConfigStages(o *Obs) []Violation {
 			vs = append(vs, v("C18", "constraints-hold-but-start-failed", "", fmt.Sprintf("every bound value satisfies its constraint and no required value is missing, but Run failed: err=%q panic=%q", o.ErrText, o.Panic)))
 		}
 	}
+	if o.OK() && !lateOpen && !hasPoints {
+		// lazy components: created by the lookup that followed Run, over the configuration of that moment
+		for _, x := range exps {
+			l, looked := o.Lookup[x.inst]
+			if !x.lazyT || !looked {
+				continue
+			}
+			e := evalConf(x.cf, cfgLate)
+			if e.Open {
+				continue
+			}
+			bad := e.Missing && !x.cf.Optional || e.Violate && x.cf.Menu != "prefixStruct"
+			if l.Panic != "" {
+				vs = append(vs, v("C18", "config-panic", x.inst, "the lookup of lazy component "+x.inst+" panicked: "+l.Panic))
+				continue
+			}
+			if bad {
+				if !l.Err {
+					vs = append(vs, v("C18", "constraint-violated-but-created", x.inst+"."+x.cf.Field, fmt.Sprintf("lazy component %s was created by a lookup after Run although %s (value %q, validate=%s, missing=%v) must make its creation fail; configuration at that time %v", x.inst, x.cf.Field, e.Value, x.cf.Validate, e.Missing, cfgLate)))
+				}
+				continue
+			}
+			if l.Err {
+				continue // another field of the component may be the reason
+			}
+			if got, ok := o.CfgLate[x.inst][x.cf.Field]; ok && got != e.Value {
+				oracle := "bound-value-differs"
+				if x.cf.Menu == "sum" || x.cf.Menu == "mul" || x.cf.Menu == "nested" || x.cf.Menu == "sumDef" {
+					oracle = "expression-result-differs"
+				}
+				vs = append(vs, v("C18", oracle, x.inst+"."+x.cf.Field, fmt.Sprintf("lazy component %s was created after Run; %s (%s %v default=%q) holds %q, the menu evaluator gives %q over the configuration of that moment %v", x.inst, x.cf.Field, x.cf.Menu, x.cf.Keys, x.cf.Default, got, e.Value, cfgLate)))
+			}
+		}
+	}
 	if o.OK() {
 		for _, x := range exps {
 			if x.e.Open || x.lazyT {
@@ -389,7 +473,7 @@ func (w *World) CheckConfigStages(o *Obs) []Violation {
 			}
 			if got != x.e.Value {
 				oracle := "bound-value-differs"
-				if x.cf.Menu == "sum" || x.cf.Menu == "mul" || x.cf.Menu == "nested" {
+				if x.cf.Menu == "sum" || x.cf.Menu == "mul" || x.cf.Menu == "nested" || x.cf.Menu == "sumDef" {
 					oracle = "expression-result-differs"
 				}
 				vs = append(vs, v("C18", oracle, x.inst+"."+x.cf.Field, fmt.Sprintf("%s.%s (%s %v default=%q) holds %q, the menu evaluator gives %q over configuration %v", x.inst, x.cf.Field, x.cf.Menu, x.cf.Keys, x.cf.Default, got, x.e.Value, cfg)))
